@@ -1,4 +1,5 @@
 import RxnModel.Base.Bytes
+import RxnModel.Generated.Facts
 /-!
 # Model of the operator's barrier alignment (C02)
 
@@ -128,6 +129,14 @@ def init (k maxSize : Nat) : St :=
   { k := k, maxSize := maxSize, slots := fun _ => none, pending := [], token := 0, lastSet := none,
     prevSet := none, ckpt := none, kv := emptyKV, timers := [], wms := fun _ => 0, watermark := 0,
     ackFails := false, active := List.range k, stopped := false }
+
+/-- how many callers outside `SourceRunnerIds` the operator of the current source admits: none when
+`Operator.HandleEvent` turns them away before the alignment decision (`Facts.c02SenderChecked`, regenerated from
+workers/operator/operator.go on every run; repair of D69), otherwise everyone who calls -/
+def admittedZ (z : Nat) : Nat := if Facts.c02SenderChecked = 1 then 0 else z
+
+/-- the freshly started operator of the current source with `k` deployed runners while `z` further senders call -/
+def codeInit (k maxSize z : Nat) : St := { init k maxSize with z := admittedZ z }
 
 /-- the key states handed to the handler: one per distinct key of the batch, read before the batch is applied -/
 def givenOf (kv : KVf) (es : List Entry) : List (Bytes × Bytes) :=
